@@ -46,3 +46,27 @@ impl K {
     pub fn bad_self_helper_m(&self) -> u32 { self.help_d() }
     pub fn bad_self_helper_nopub_m(&self) -> u32 { self.help_n() }
 }
+
+// CALL-SITE: an automatically analysed helper sees a parameter as public when the first call site passes a public argument
+fn helper_bits(bits: usize, k: u64) -> u64 { if bits == 0 { return 1; } let mut a = k; for _ in 0..bits { a = a.wrapping_mul(3); } a }
+pub fn ok_callsite_pub(n: usize, k: u64) -> u64 { helper_bits(n, k) }
+fn helper_bits2(bits: usize, k: u64) -> u64 { if bits == 0 { return 1; } k }
+pub fn bad_callsite_sec(n: usize, k: u64) -> u64 { helper_bits2(k as usize, k) }
+// ABORT-TRY-HELPER: `?` on a checking helper whose own skeleton has the abort point
+fn checker(a: &[u8; 4], b: &[u8; 4]) -> Result<(), ()> { if a.ct_ne(b).into() { return Err(()); } Ok(()) }
+pub fn ok_try_helper(n: usize, a: &[u8; 4], b: &[u8; 4]) -> Result<u8, ()> { checker(a, b)?; Ok(1) }
+fn not_checker(a: &[u8; 4]) -> Result<u8, ()> { Ok(a[0]) }
+pub fn bad_try_plain(n: usize, a: &[u8; 4]) -> Result<u8, ()> { let x = not_checker(a)?; Ok(x) }
+// GUARD-RETURN: only a top-level public guard; a secret guard or a guard inside a loop stays rejected
+pub fn ok_guard_return(n: usize, k: u64) -> u64 { if n == 0 { return 1; } k.wrapping_mul(3) }
+pub fn bad_guard_return_secret(n: usize, k: u64) -> u64 { if k == 0 { return 1; } k.wrapping_mul(3) }
+pub fn bad_guard_return_in_loop(n: usize, k: u64) -> u64 { for i in 0..n { if i == 2 { return 1; } } k }
+// CALL-SITE is only used when the helper NEEDS a public parameter: a helper accepted with all parameters secret serves every caller
+fn helper_any(p: u64, k: u64) -> u64 { p.wrapping_mul(k) }
+pub fn ok_callsite_first_pub(n: usize, k: u64) -> u64 { helper_any(n as u64, k) }
+pub fn ok_callsite_then_sec(n: usize, k: u64) -> u64 { helper_any(k, k) }
+// CHOICE-VAR: the abort condition may go through a let-bound Choice; ITER-VAR: a let-bound iterator keeps its trip count
+pub fn ok_choice_var(n: usize, a: &[u8; 4], b: &[u8; 4]) -> Result<u8, ()> { let same = a.ct_eq(b); if (!same).into() { return Err(()); } Ok(1) }
+pub fn bad_nonchoice_var(n: usize, a: &[u8; 4], b: &[u8; 4]) -> Result<u8, ()> { let same = a[0] > b[0]; if same.into() { return Err(()); } Ok(1) }
+pub fn ok_iter_var(n: usize, a: &[u8; 4], b: &[u8; 4]) -> u8 { let rows = a.iter().zip(b.iter()); let mut s = 0u8; for (x, y) in rows { s ^= x ^ y; } s }
+pub fn ok_chunks_exact_mut(n: usize, a: &mut [u8; 8]) { for c in a.chunks_exact_mut(2) { c[0] ^= c[1]; } }
